@@ -81,8 +81,18 @@ def check_block_has_no_users(
                     raise DeleteBlockError()
 
 
-def check_circuit_has_no_cycles(circuit: 'Circuit') -> None:
-    """Check that there are no cycles in the circuit."""
+def check_circuit_has_no_cycles(
+    circuit: 'Circuit',
+    start_gates: tp.Optional[tp.Sequence['Label']] = None,
+) -> None:
+    """
+    Check that there are no cycles in the circuit.
+
+    :param circuit: the circuit to check.
+    :param start_gates: gates to start the search from. By default only cycles
+        reachable from the outputs are looked for.
+
+    """
     from cirbo.core.circuit.circuit import TraverseState
 
     def on_discover_hook(
@@ -94,4 +104,6 @@ def check_circuit_has_no_cycles(circuit: 'Circuit') -> None:
                 'Circuit has orinted cycle',
             )
 
-    more_itertools.consume(circuit.dfs(on_discover_hook=on_discover_hook))
+    more_itertools.consume(
+        circuit.dfs(start_gates, on_discover_hook=on_discover_hook)
+    )
